@@ -20,6 +20,9 @@ CUSTOMS = ["-", "n", "v55", "r56", "Q57", "In", "Iv58"]
 # instance (i...), the object being a class whose unbound __conform__ cannot be called with the interface alone (U)
 CONFS2 = ["T14", "in", "iv22", "ir15", "iT16", "iQ17", "U", "K",
           # the adapted object is a class whose __conform__ is callable on the class itself: classmethod (k), staticmethod (s), metaclass method (m)
+          # the adapted object is a super object super(C, c): it provides what the classes AFTER C implement (Ya: declared
+          # there), not what C (Yd) or the instance (Yi) declares
+          "Ya", "Yd", "Yi",
           "kn", "kv23", "kr18", "kT19", "sn", "sv24", "sr20", "mn", "mv25", "mQ26"]
 
 
@@ -51,7 +54,7 @@ def gen_lines(rnd, tier):
                     for cu in CUSTOMS:
                         L.append("call %s %s %s %s %s" % (cf, prov, hs, alt, cu))
     # registry hook installed: the result must equal registry.queryAdapter
-    for cf in ["a", "E", "n"]:
+    for cf in ["a", "E", "n", "Ya", "Yd"]:
         for t in ["R0", "Rn", "Rv61", "W0", "Wn", "Wv62"]:
             for alt in ALTS:
                 for pre in ["", "n,"]:
@@ -64,6 +67,16 @@ def gen_lines(rnd, tier):
     return L
 
 
+def effective(line):
+    """a super object provides what the classes after the named one implement: declarations on the named class or on the
+    instance do not count"""
+    f = line.split()
+    if f[1][0] == "Y":
+        f[2] = f[2] if f[1] == "Ya" else "0"
+        f[1] = "a"
+    return " ".join(f)
+
+
 def to_model(line):
     """the model has no registry: a registry hook is the hook returning what queryAdapter finds; `E` (AttributeError
     from the attribute access) is the absent case of the statement"""
@@ -74,6 +87,7 @@ def to_model(line):
         if t.startswith("Rv") or t.startswith("Wv"):
             return "v" + t[2:]
         return "r" + t[1:] if t[0] == "Q" else t
+    f = effective(line).split()
     hs = ",".join(tok(t) for t in f[3].split(","))
     cf = normcf(f[1])
     cf = "a" if cf == "E" else ("r" + cf[1:] if cf[0] == "Q" else cf)
@@ -83,7 +97,7 @@ def to_model(line):
 
 def spec(line):
     """the statement, evaluated directly: (result, log)"""
-    f = line.split()
+    f = effective(line).split()
     cf, prov, hs, alt, cu = f[1:6]
     cf = normcf(cf)
     log = []
